@@ -653,7 +653,11 @@ class MiniEval:
             ast.literal_eval(g)
             return g
         except (ValueError, TypeError, SyntaxError, MemoryError, RecursionError):
-            return None
+            pass
+        # arithmetic on literals (1 << 13, 2**64 - 1, 8 * 32)
+        if all(isinstance(x, (ast.Constant, ast.BinOp, ast.UnaryOp, ast.operator, ast.unaryop, ast.Tuple, ast.Load)) for x in ast.walk(g)):
+            return g
+        return None
 
     def _imports_module(self, e: ast.Name) -> bool:
         """the fragment's module (or an enclosing function) has `import <name>` for a pure standard-library module"""
@@ -971,11 +975,22 @@ class MiniEval:
                 except _Continue:
                     continue
         elif isinstance(st, ast.With):
+            exits = []
             for it in st.items:
                 v = self.ev(it.context_expr)
+                entered = v
+                if isinstance(v, Sym) and "__enter__" in v.methods:
+                    # a modelled context manager: its enter / exit hooks run around the body, exit also when the body raises
+                    entered = v.methods["__enter__"]()
+                    if "__exit__" in v.methods:
+                        exits.append(v.methods["__exit__"])
                 if it.optional_vars is not None:
-                    self._bind(it.optional_vars, v)
-            self.run(st.body)
+                    self._bind(it.optional_vars, entered)
+            try:
+                self.run(st.body)
+            finally:
+                for ex in reversed(exits):
+                    ex(None, None, None)
         elif isinstance(st, ast.Try):
             self.run(st.body)
             self.run(st.orelse)
